@@ -152,22 +152,31 @@ def run(ctx):
                       "shuffle": rng.randrange(1, 10 ** 6)})
     for idx, case in enumerate(cases):
         case["id"] = idx
-    events = [ev for part in pmap(_observe_many, chunks(cases, CPUS * 4)) for ev in part]
-    res = ctx.validate("Genes_Trace", events, None, min_per_shard=100)
-    # rejections come back as "op/clause@k": turn each into a failure naming the exact query
-    ctx.failures = []
     by_case = {case["id"]: case for case in cases}
-    by_event = {ev["id"]: ev for ev in events}
-    for ident, clauses in sorted(res.rejects.items()):
-        case = by_case[ident]
-        for text in sorted(set(clauses)):
-            head, qidx = text.rsplit("@", 1)
-            op, clause = head.split("/", 1)
-            query = case["queries"][int(qidx) - 1]
-            ctx.fail({"op": op, "clause": clause, "input": {"L": case["L"], "circ": case["circ"], "genes": case["genes"],
-                                                             "q": query["q"], "ov": query["ov"]},
-                      "call": _call(case, query), "observed": by_event[ident]["queries"][int(qidx) - 1]["ret"],
-                      "features": _features(case, query), "sampled": case["sampled"]})
+    samples = {}
+    for start in range(0, len(cases), 6000):
+        part = cases[start:start + 6000]
+        events = [ev for sub in pmap(_observe_many, chunks(part, CPUS * 4)) for ev in sub]
+        res = ctx.validate("Genes_Trace", events, None, min_per_shard=100)
+        # rejections come back as "op/clause@k": turn each into a failure naming the exact query
+        ctx.failures = [f for f in ctx.failures if f.get("op") != "?"]
+        by_event = {ev["id"]: ev for ev in events}
+        for ident in (cases[len(cases) // 5]["id"], cases[-1]["id"]):
+            if ident in by_event:
+                case = by_case[ident]
+                samples[ident] = {"L": case["L"], "circ": case["circ"], "genes": case["genes"],
+                                  "first_queries": by_event[ident]["queries"][:3]}
+        for ident, clauses in sorted(res.rejects.items()):
+            case = by_case[ident]
+            for text in sorted(set(clauses)):
+                head, qidx = text.rsplit("@", 1)
+                op, clause = head.split("/", 1)
+                query = case["queries"][int(qidx) - 1]
+                ctx.fail({"op": op, "clause": clause, "input": {"L": case["L"], "circ": case["circ"], "genes": case["genes"],
+                                                                 "q": query["q"], "ov": query["ov"]},
+                          "call": _call(case, query), "observed": by_event[ident]["queries"][int(qidx) - 1]["ret"],
+                          "features": _features(case, query), "sampled": case["sampled"]})
+        del events, by_event
     lookups = sum(len(case["queries"]) for case in cases)
     ctx.evaluations = lookups
     ctx.notes["lookups"] = lookups
@@ -176,9 +185,8 @@ def run(ctx):
         if len(case["genes"]) >= 2 and (any(_bridging(g) for g in case["genes"])
                                         or "gene_shadowed_by_nested_or_same_start_gene" in _features(case, case["queries"][0])):
             ctx.nontrivial_case(case["id"])
-    for case in (cases[len(cases) // 5], cases[-1]):
-        event = by_event[case["id"]]
-        ctx.sample({"L": case["L"], "circ": case["circ"], "genes": case["genes"], "first_queries": event["queries"][:3]})
+    for ident in sorted(samples):
+        ctx.sample(samples[ident])
     ctx.exhaustive = True
     ctx.rule = ("TLC enumerates all simple and origin-spanning arcs of the listed record lengths (linear and circular); the harness "
                 "forms every layout of 1-3 genes (4 genes and longer records: seeded samples), random strands and insertion orders, "
